@@ -40,3 +40,9 @@ func VerifServeOneStream(sh *SessionHandler, conn net.Conn) error {
 	sh.handleHostStream(stream, sh.log)
 	return nil
 }
+
+// VerifRegisterPriceTable registers pt with the handler's price table manager
+// (what handleRPCPriceTable does after a paid price table update).
+func VerifRegisterPriceTable(sh *SessionHandler, pt rhp3.HostPriceTable) {
+	sh.priceTables.Register(pt)
+}
